@@ -48,7 +48,7 @@ def decrypt_attr(key, blob):
 
 def seq_enc(lib, p11drv, seed, idx, codecdrv):
     rng = random.Random(seed * 57885161 + idx)
-    um = rng.choice([None, None, '0077', '0027', '0022', '0007', '0277'])
+    um = rng.choice([None, None, '0077', '0027', '0022', '0007', '0277', '77', '27', '7', '177'])      # "in octal" (man page): with or without a leading zero
     p = P11(p11drv, lib, umask=um, keep=True)
     cd = kstore.Codec(codecdrv)
     findings = []
